@@ -565,6 +565,29 @@ func c20ScaleReduce(sc *c20Scale, keys []string, ops []c20SOp, want string, box 
 		n, _ := c20ScaleSeq(sc, keys, o)
 		return n == want
 	}
+	// two cheap passes first: without the failing calls; with only the first call on every key (and the last call)
+	if len(ops) > 2 {
+		var cand []c20SOp
+		for i, o := range ops {
+			if o.val >= 0 || i == len(ops)-1 {
+				cand = append(cand, o)
+			}
+		}
+		if len(cand) < len(ops) && fails(cand) {
+			ops = cand
+		}
+		seen := map[int32]bool{}
+		cand = nil
+		for i, o := range ops {
+			if !seen[o.key] || i == len(ops)-1 {
+				cand = append(cand, o)
+			}
+			seen[o.key] = true
+		}
+		if len(cand) < len(ops) && fails(cand) {
+			ops = cand
+		}
+	}
 	n := 2
 	for len(ops) >= 2 && time.Now().Before(deadline) {
 		chunk := (len(ops) + n - 1) / n
@@ -595,11 +618,21 @@ func c20ScaleReduce(sc *c20Scale, keys []string, ops []c20SOp, want string, box 
 		}
 	}
 	// a canonical order reads (and compresses) better: all calls but the last sorted by key, if that still fails
+	// (second candidate: the earlier calls on the last call's key first, the rest sorted)
 	if len(ops) > 2 {
-		cand := append([]c20SOp{}, ops...)
-		sort.SliceStable(cand[:len(cand)-1], func(a, b int) bool { return cand[a].key < cand[b].key })
-		if fails(cand) {
-			ops = cand
+		last := ops[len(ops)-1].key
+		for _, front := range []bool{false, true} {
+			cand := append([]c20SOp{}, ops...)
+			sort.SliceStable(cand[:len(cand)-1], func(a, b int) bool {
+				if front && (cand[a].key == last) != (cand[b].key == last) {
+					return cand[a].key == last
+				}
+				return cand[a].key < cand[b].key
+			})
+			if fails(cand) {
+				ops = cand
+				break
+			}
 		}
 	}
 	return ops, tests
@@ -611,6 +644,19 @@ func c20ScaleOps(sc *c20Scale, ops []c20SOp, maxGroups int) string {
 	for i := 0; i < len(ops); {
 		j := i + 1
 		d := int32(0)
+		if j < len(ops) && ops[j].key == ops[i].key && (ops[j].val < 0) == (ops[i].val < 0) {
+			// the same call repeated
+			for j < len(ops) && ops[j].key == ops[i].key && (ops[j].val < 0) == (ops[i].val < 0) {
+				j++
+			}
+			what := "callable fails"
+			if ops[i].val >= 0 {
+				what = fmt.Sprintf("callables return %d..%d, one value per call", ops[i].val, ops[j-1].val)
+			}
+			out = append(out, fmt.Sprintf("%d times once(%s; %s)", j-i, sc.keyName(int(ops[i].key)), what))
+			i = j
+			continue
+		}
 		if j < len(ops) && (ops[j].val < 0) == (ops[i].val < 0) && (ops[j].key-ops[i].key == 1 || ops[j].key-ops[i].key == -1) {
 			d = ops[j].key - ops[i].key
 			for j < len(ops) && (ops[j].val < 0) == (ops[i].val < 0) && ops[j].key-ops[j-1].key == d {
